@@ -27,7 +27,7 @@ structure Base where
 structure Feed where
   id : Nat
   state : Nat
-  pev : Rat
+  pev : Option Rat          -- percent_expected_vote; `none` = no figure in the feed row (taken as 0: not reporting yet)
   res : List (Option Rat)   -- results_<estimand> for the requested estimands
   rw : Option Rat           -- results_weights
   deriving Repr
@@ -74,7 +74,7 @@ def joinRow (p : Policy) (nres : Nat) (b : Base) (feed : List Feed) : Option Row
     | .zero => some ⟨b.id, b.state, b.bw, 0, List.replicate nres 0, none, 0⟩
   | some f =>
     if complete f then
-      some ⟨b.id, b.state, b.bw, f.pev, f.res.map (fun r => r.getD 0), f.rw, turnoutFactor f.rw b.bw⟩
+      some ⟨b.id, b.state, b.bw, f.pev.getD 0, f.res.map (fun r => r.getD 0), f.rw, turnoutFactor f.rw b.bw⟩
     else
       match p with
       | .drop => none
